@@ -13,6 +13,7 @@
   psychrometric charts, CSV/PKL files.
 -/
 import Ladybug.Model.Serial.Coll
+import Ladybug.Model.Serial.Files
 import Ladybug.Proofs.C07Loc
 import Ladybug.Proofs.C07Basic
 import Ladybug.Proofs.C07Legend
@@ -563,5 +564,86 @@ theorem C07_immutable_refuses (c : Coll) (hi : c.imm = true) (v : PyVal) (i : In
     (collM.step c (.asg (.values v))).2 = .refused ∧ (collM.step c (.asg (.item i v))).2 = .refused ∧
     (collM.step c (.asg (.values v))).1 = c ∧ (collM.step c (.asg (.item i v))).1 = c := by
   simp [collM, Machine.step, collApply, hi]
+
+/-! ### Round 4: sibling classes, series of collections in files -/
+
+/-- The normal form of a collection does not mention which twin it is. -/
+theorem Coll.wf_toMutable (c : Coll) (h : c.wf) : c.toMutable.wf := h
+theorem Coll.wf_toImmutable (c : Coll) (h : c.wf) : c.toImmutable.wf := h
+
+/-- Sibling classes agree: the mutable and the immutable twin of a collection write, after JSON,
+    the SAME dictionary (the tuple of values of the immutable twin becomes a list). -/
+theorem C07_twins_same_json (c : Coll) : jsonRT c.toImmutable.enc = jsonRT c.toMutable.enc := by
+  simp [Coll.enc, Coll.toImmutable, Coll.toMutable, jsonRT_dict, kv]
+
+/-- The two conversions are inverse to each other on either twin, and idempotent. -/
+theorem C07_twin_conversions (c : Coll) :
+    c.toImmutable.toMutable = c.toMutable ∧ c.toMutable.toImmutable = c.toImmutable ∧
+    c.toMutable.toMutable = c.toMutable ∧ c.toImmutable.toImmutable = c.toImmutable ∧
+    (c.imm = false → c.toMutable = c) ∧ (c.imm = true → c.toImmutable = c) := by
+  rcases c with ⟨k, h, v, t, va, i⟩
+  simp [Coll.toMutable, Coll.toImmutable]
+
+/-- Reading the dictionary of EITHER twin with the mutable class (what the file readers of `datautil`
+    do) gives the mutable twin; with the immutable class, the immutable twin. -/
+theorem C07_read_as_mutable (c : Coll) (h : c.wf) :
+    (Coll.rd c.kind false).dec (jsonRT c.enc) = some c.toMutable := by
+  have hm := C07_Collection c.toMutable (Coll.wf_toMutable c h)
+  rcases c with ⟨k, hd, v, t, va, i⟩
+  cases i
+  · exact hm
+  · have e := C07_twins_same_json ⟨k, hd, v, t, va, true⟩
+    simp only [Coll.toImmutable, Coll.toMutable] at e hm ⊢
+    rw [e]; exact hm
+
+theorem C07_read_as_immutable (c : Coll) (h : c.wf) :
+    (Coll.rd c.kind true).dec (jsonRT c.enc) = some c.toImmutable := by
+  have hm := C07_Collection c.toImmutable (Coll.wf_toImmutable c h)
+  rcases c with ⟨k, hd, v, t, va, i⟩
+  cases i
+  · have e := C07_twins_same_json ⟨k, hd, v, t, va, false⟩
+    simp only [Coll.toImmutable, Coll.toMutable] at e hm ⊢
+    rw [← e]; exact hm
+  · exact hm
+
+theorem decList_map' {α : Type} (f : PyVal → Option α) (g : α → PyVal) (t : α → α) (l : List α)
+    (h : ∀ a ∈ l, f (g a) = some (t a)) : decList f (l.map g) = some (l.map t) := by
+  induction l with
+  | nil => rfl
+  | cons x xs ih =>
+    simp only [List.map, decList, h x (by simp), ih (fun a ha => h a (by simp [ha]))]
+    rfl
+
+/-- JSON / pickle file of a series of collections: every collection written is read back, in the order
+    written, as its mutable twin - for every reader `rd` that reads single dictionaries back (the
+    dispatch of `_dict_to_collection` on the `type` key is the hypothesis; `C07_json_file` below
+    discharges it for series of one class).  In particular the number of collections read is the
+    number written, whatever container the series was handed over in: the model of the writers takes
+    the list of the elements. -/
+theorem C07_json_file_partial (rd : PyVal → Option Coll)
+    (hrd : ∀ c : Coll, c.wf → rd (jsonRT c.enc) = some c.toMutable)
+    (xs : List Coll) (hw : ∀ c ∈ xs, c.wf) :
+    decFileOf rd (jsonRT (encFile xs)) = some (xs.map Coll.toMutable) := by
+  simp only [encFile, jsonRT_list, List.map_map, decFileOf]
+  show decList rd (xs.map (jsonRT ∘ Coll.enc)) = _
+  exact decList_map' rd (jsonRT ∘ Coll.enc) Coll.toMutable xs (fun c hc => hrd c (hw c hc))
+
+/-- Series of collections of one class `k` (mutable and immutable twins mixed): the file reads back to
+    the mutable twins of all of them, in order. -/
+theorem C07_json_file (k : CollKind) (xs : List Coll) (hk : ∀ c ∈ xs, c.kind = k) (hw : ∀ c ∈ xs, c.wf) :
+    decFileOf (Coll.rd k false).dec (jsonRT (encFile xs)) = some (xs.map Coll.toMutable) := by
+  simp only [encFile, jsonRT_list, List.map_map, decFileOf]
+  show decList (Coll.rd k false).dec (xs.map (jsonRT ∘ Coll.enc)) = _
+  refine decList_map' _ (jsonRT ∘ Coll.enc) Coll.toMutable xs (fun c hc => ?_)
+  have := C07_read_as_mutable c (hw c hc)
+  rw [hk c hc] at this
+  exact this
+
+/-- The number of collections read from a file is the number written. -/
+theorem C07_json_file_count (k : CollKind) (xs : List Coll) (hk : ∀ c ∈ xs, c.kind = k) (hw : ∀ c ∈ xs, c.wf) :
+    (decFileOf (Coll.rd k false).dec (jsonRT (encFile xs))).map List.length = some xs.length := by
+  rw [C07_json_file k xs hk hw]; simp
+
+example : decFileOf (Coll.rd .monthly false).dec (jsonRT (encFile [])) = some [] := rfl
 
 end Codec
